@@ -436,3 +436,50 @@ func genLocalScope() Gen {
 		}
 	}
 }
+
+// F-fractkey — stores and reads through numeric keys that are not integers, next to a filled list:
+// t[k] with k = i + 0.5 for every i around the list (key as constant, in a register, computed),
+// for list lengths 0-4; the list elements, the fractional key and the length are observed.
+func genFractKey() Gen {
+	return func(yield func(*Prog)) {
+		for n := 0; n <= 4; n++ {
+			for i := 0; i <= n+1; i++ {
+				for _, form := range []string{"const", "reg", "expr", "midpoint"} {
+					n, i, form := n, i, form
+					if form == "midpoint" && (n < 2 || i != 0) {
+						continue
+					}
+					yield(&Prog{Family: "F-fractkey", Shape: fmt.Sprintf("n=%d/k=%d.5/%s", n, i, form), Mk: func() *Block {
+						var fs []Field
+						for j := 1; j <= n; j++ {
+							fs = append(fs, Pos1(Num(float64(j*10))))
+						}
+						k := float64(i) + 0.5
+						st := []Stat{Local1("t", TableE(fs...)), Local1("kr", Num(k))}
+						var key func() Expr
+						switch form {
+						case "const":
+							key = func() Expr { return Num(k) }
+						case "reg":
+							key = func() Expr { return Name("kr") }
+						case "expr":
+							key = func() Expr { return Bin("+", Num(float64(i)), Num(0.5)) }
+						case "midpoint":
+							key = func() Expr { return Bin("/", Bin("+", Num(1), Un("#", Name("t"))), Num(2)) }
+						}
+						obs := func(tag string) Stat {
+							a := []Expr{Str(tag), Index(Name("t"), key())}
+							for j := 0; j <= n+1; j++ {
+								a = append(a, Index(Name("t"), Num(float64(j))))
+							}
+							return Emit(append(a, Un("#", Name("t")))...)
+						}
+						st = append(st, obs("before"), Assign1(Index(Name("t"), key()), Str("F")), obs("stored"),
+							Assign1(Index(Name("t"), key()), Nil()), obs("erased"))
+						return Blk(st...)
+					}})
+				}
+			}
+		}
+	}
+}
